@@ -80,9 +80,10 @@ class STuple(SV):
 class SObj(SV):
     """instance of a repository class; fields live in State.objs[oid]"""
 
-    def __init__(self, cls, oid):
+    def __init__(self, cls, oid, init_fields=None):
         self.cls = cls
         self.oid = oid
+        self.init_fields = init_fields   # for objects born inside list templates (materialised on first use)
 
     def __repr__(self):
         return 'SObj(%s#%s)' % (self.cls.name, self.oid)
